@@ -62,6 +62,17 @@ type BaseConv interface {
 var varFunc = func(i int) int { return i }
 var notFunc = 3
 
+// hzErr is a concrete type that implements error: a function that returns it (instead of error) has not the
+// documented shape "no result, or error" / "(T, error)" - a nil *hzErr stored in an error is not nil.
+type hzErr struct{}
+
+func (*hzErr) Error() string { return "hz" }
+
+func h2ce(d *HB, s *HA) *hzErr        { return nil }
+func f1ce(i int) (int, *hzErr)        { return i, nil }
+func h2s(d *HB, s *HB)                {}
+func h3s2(d *HB, s *HA, x string)     {}
+
 func f0() int                       { return 0 }
 func f1(i int) int                  { return i }
 func f1s(s string) string           { return s }
@@ -252,6 +263,10 @@ var c14Planted = [][3]string{
 	{"preprocess-error-without-error-result", ":preprocess h2e", ""}, {"postprocess-no-params", ":postprocess h0", ""}, {"postprocess-one-param", ":postprocess h1", ""},
 	{"postprocess-unknown", ":postprocess nosuch", ""}, {"postprocess-unexported-imported", ":postprocess ext.unexportedConv", ""},
 	{"reverse-without-style-arg", ":reverse", ""},
+	{"recv-blank-identifier", ":recv _", ""},
+	{"preprocess-returns-concrete-error-type", ":preprocess h2ce", "(*HA) (*HB, error)"}, {"postprocess-returns-concrete-error-type", ":postprocess h2ce", "(*HA) (*HB, error)"},
+	{"conv-second-result-concrete-error-type", ":conv f1ce X", "(*HA) (*HB, error)"},
+	{"preprocess-second-param-mismatch", ":preprocess h2s", ""}, {"postprocess-additional-param-type-mismatch", ":postprocess h3s2", "(a *HA, n int) *HB"},
 	{"method-no-params", "", "() *HB"}, {"method-no-results", "", "(*HA)"}, {"method-non-struct-src", "", "(int) *HB"}, {"method-non-struct-dst", "", "(*HA) int"},
 	{"method-pointer-pointer-src", "", "(**HA) *HB"}, {"method-pointer-pointer-dst", "", "(*HA) **HB"}, {"method-interface-src", "", "(interface{}) *HB"},
 	{"method-undefined-src", "", "(*Nope) *HB"}, {"method-undefined-dst", "", "(*HA) *Nope"}, {"method-slice-operands", "", "([]HA) []HB"}, {"method-error-operands", "", "(error) error"},
@@ -265,7 +280,7 @@ const c14Head = "//go:build convergen\n\npackage home\n\nimport (\n\t_ \"example
 
 func TestC14(t *testing.T) {
 	env, rec := start(t, "C14", "exploration",
-		"(a) table of planted single malformations (52 notation/method errors) each embedded in rapid-drawn otherwise valid context (position in the method list, neighbouring valid notations): must be rejected with a first diagnostic that starts with file:line of the planted item; "+
+		"(a) table of planted single malformations (58 notation/method errors) each embedded in rapid-drawn otherwise valid context (position in the method list, neighbouring valid notations): must be rejected with a first diagnostic that starts with file:line of the planted item; "+
 			"(b) rapid grammar of hostile setups: 0-6 notation lines per method/interface built from every notation name (known, unknown, misplaced) with 0-4 arguments drawn from valid tokens and hostile constants (empty, '.', '$0', '$99999999999999999999', '/(/', '/\\pL/', unbalanced quotes, NUL, invalid UTF-8, 300-char tokens, deep paths), "+
 			"functions from a zoo of 37 signatures (0-4 params, 0-3 results, variadic, generic, vars, types, imported unexported, builtins), 36 method signatures (no params/results, non-struct, **T, interface, error, unresolved, variadic, named like dst/src/err), error- and interface-typed fields; also Go files without converter interface and with syntax errors. "+
 			"Oracle: terminates (60 s limit, re-tried 3x), no panic/fatal error/signal, exit 0 or non-zero with a message, exit 0 implies one generated function per method. Non-trivial: input with a planted malformation or at least one hostile token; distinct by hash of the setup text.")
@@ -300,7 +315,7 @@ func TestC14(t *testing.T) {
 	validNotes := []string{":typecast", ":stringer", ":getter", ":case:off", ":skip S", ":map X X", ":conv f1 X", ":literal S \"x\"", ":postprocess h2", ":style return"}
 
 	// (a) planted malformations in varying context
-	rapidRun(t, env, "planted", env.Pick(52*12, 52*200), func(rt *rapid.T) {
+	rapidRun(t, env, "planted", env.Pick(58*12, 58*200), func(rt *rapid.T) {
 		pl := rapid.SampledFrom(c14Planted).Draw(rt, "planted")
 		var sb strings.Builder
 		sb.WriteString(c14Head)
